@@ -199,11 +199,17 @@ func (c *TCPConn) Write(b []byte) (int, error) {
 	vrt.Yield(vrt.Op{Kind: "write", Obj: c.out.id, Enabled: func() bool {
 		return c.closed || c.out.closed || c.out.reset || len(c.out.buf)+c.out.inflight+len(b) <= c.out.window || len(c.out.buf)+c.out.inflight == 0
 	}})
-	if f := n.fault("write", c.name); f == "reset" {
+	f := n.fault("write", c.name)
+	if f == "reset" {
 		c.Reset()
 	}
 	if c.closed {
 		return 0, &net.OpError{Op: "write", Net: "tcp", Err: net.ErrClosed}
+	}
+	if f == "drop" && !c.out.reset && !c.out.closed {
+		// the peer has stopped reading for good (a stalled process): the bytes are accepted and never delivered
+		n.Tap = append(n.Tap, WireEvent{From: c.name, To: c.peer.name, Conn: c.Index, Data: append([]byte(nil), b...), At: vrt.Now()})
+		return len(b), nil
 	}
 	if c.out.reset || c.out.closed {
 		return 0, &net.OpError{Op: "write", Net: "tcp", Err: syscall.EPIPE}
